@@ -13,7 +13,8 @@ git -C /repo worktree add -q --detach "$wt" HEAD || exit 3
 cleanup() { git -C /repo worktree remove --force "$wt" >/dev/null 2>&1; rm -rf "$wt" "/tmp/mt/ev-$id"; }
 trap cleanup EXIT
 demo_without="na"; demo_with="na"
-if [ -f "$dir/demo.py" ]; then
+# RUN_MUTANT_CHECK_ONLY=1: regression mode -- suite and demonstration were confirmed when the change was filed
+if [ -f "$dir/demo.py" ] && [ -z "${RUN_MUTANT_CHECK_ONLY:-}" ]; then
   (cd "$wt" && PYTHONPATH="$wt/src" timeout 600 /venv/bin/python "$dir/demo.py" >/tmp/mt/demo-$id.out 2>&1); demo_without=$?
 fi
 base="HEAD"
@@ -24,8 +25,9 @@ if ! git -C "$wt" apply --check "$dir/patch.diff" 2>/dev/null; then
   fi
 fi
 if ! git -C "$wt" apply "$dir/patch.diff"; then echo "{\"id\": \"$id\", \"error\": \"patch does not apply\"}"; exit 3; fi
-tests=$(cd "$wt" && env -u CELPY_VERIF PYTHONPATH="$wt/src" timeout 1200 /venv/bin/python -m pytest -q -p no:cacheprovider --timeout=900 --continue-on-collection-errors 2>&1 | tail -1)
-if [ -f "$dir/demo.py" ]; then
+tests="not re-run"
+[ -z "${RUN_MUTANT_CHECK_ONLY:-}" ] && tests=$(cd "$wt" && env -u CELPY_VERIF PYTHONPATH="$wt/src" timeout 1200 /venv/bin/python -m pytest -q -p no:cacheprovider --timeout=900 --continue-on-collection-errors 2>&1 | tail -1)
+if [ -f "$dir/demo.py" ] && [ -z "${RUN_MUTANT_CHECK_ONLY:-}" ]; then
   (cd "$wt" && PYTHONPATH="$wt/src" timeout 600 /venv/bin/python "$dir/demo.py" >/tmp/mt/demo-$id.out 2>&1); demo_with=$?
 fi
 cd /verif
